@@ -1193,4 +1193,168 @@ theorem maskUnmarshal_roundtrip {names : List Nat} {byName : Table} (ok : MaskOk
       rw [this, filter_nonempty_toks ht]
       exact hall
 
+/-! ## the pin as a lower bound: `subTable`, `coversEnums`, `coversMasks`, `coversRegistry` -/
+
+theorem subSeq_spec : ∀ {p g : Table}, subSeq p g = true → ∀ x, x ∈ p → x ∈ g
+  | [], _, _, x, hx => by simp at hx
+  | _ :: _, [], h, _, _ => by simp [subSeq] at h
+  | a :: s, b :: t, h, x, hx => by
+    unfold subSeq at h
+    by_cases he : (a.1 == b.1 && a.2 == b.2) = true
+    · rw [if_pos he] at h
+      simp only [Bool.and_eq_true, beq_iff_eq] at he
+      have e : a = b := Prod.ext he.1 he.2
+      rcases List.mem_cons.mp hx with hx | hx
+      · rw [hx, e]; exact List.mem_cons_self
+      · exact List.mem_cons_of_mem _ (subSeq_spec h x hx)
+    · rw [if_neg he] at h
+      exact List.mem_cons_of_mem _ (subSeq_spec h x hx)
+
+/-- SOUNDNESS of `covers`: every pinned pair is a live pair. -/
+theorem covers_spec {p g : Table} (h : covers p g = true) : ∀ x, x ∈ p → x ∈ g := by
+  unfold covers at h
+  rcases Bool.or_eq_true _ _ |>.mp h with h | h
+  · exact subSeq_spec h
+  · exact subTable_spec h
+
+/-- a pinned question keeps its answer in a live table that contains the pinned pairs and is a function. -/
+theorem covers_lookup {p g : Table} (h : covers p g = true) (hg : Functional g) {k v : Nat}
+    (hl : lookup k p = some v) : lookup k g = some v :=
+  lookup_of_mem_functional hg (covers_spec h _ (lookup_mem hl))
+
+theorem keysNodup_functional {t : Table} (h : keysNodup t = true) : Functional t :=
+  fun _ _ _ h1 h2 => keysNodup_unique h h1 h2
+
+/-- SOUNDNESS of `coversEnums`: for EVERY tag, every pinned pair of the two tables is a live pair. -/
+theorem coversEnums_sound {p g : EnumIndex} (h : coversEnums p g = true) (tag : Nat) :
+    (∀ x, x ∈ enumByValue p tag → x ∈ enumByValue g tag) ∧
+    (∀ x, x ∈ enumByName p tag → x ∈ enumByName g tag) := by
+  unfold coversEnums at h
+  have hall := List.all_eq_true.mp h
+  cases hf : findEnum tag p with
+  | none => simp [enumByValue, enumByName, hf]
+  | some x =>
+    have := hall _ (findEnum_mem hf)
+    simp only [Bool.and_eq_true] at this
+    have e1 : enumByValue p tag = x.1 := by simp [enumByValue, hf]
+    have e2 : enumByName p tag = x.2 := by simp [enumByName, hf]
+    rw [e1, e2]
+    exact ⟨covers_spec this.1, covers_spec this.2⟩
+
+theorem natPrefix_getD : ∀ {p l : List Nat}, natPrefix p l = true → ∀ i, i < p.length →
+    l.getD i emptyName = p.getD i emptyName ∧ i < l.length
+  | [], _, _, i, hi => by simp at hi
+  | _ :: _, [], h, _, _ => by simp [natPrefix] at h
+  | a :: s, b :: t, h, i, hi => by
+    simp only [natPrefix, Bool.and_eq_true, beq_iff_eq] at h
+    cases i with
+    | zero => simp [h.1]
+    | succ j =>
+      have := natPrefix_getD h.2 j (by simpa using hi)
+      simp only [List.getD_eq_getElem?_getD, List.getElem?_cons_succ, List.length_cons] at this ⊢
+      exact ⟨this.1, by omega⟩
+
+/-- SOUNDNESS of `coversMasks`: for EVERY tag, pinned flag `i` is live flag `i` under the same name, and
+    every pinned pair of the reverse table is a live pair. -/
+theorem coversMasks_sound {p g : MaskIndex} (h : coversMasks p g = true) (tag : Nat) :
+    (∀ i, i < (maskNames p tag).length →
+      (maskNames g tag).getD i emptyName = (maskNames p tag).getD i emptyName ∧
+      i < (maskNames g tag).length) ∧
+    (∀ x, x ∈ maskByName p tag → x ∈ maskByName g tag) := by
+  unfold coversMasks at h
+  have hall := List.all_eq_true.mp h
+  cases hf : findMask tag p with
+  | none => simp [maskNames, maskByName, hf]
+  | some x =>
+    have := hall _ (findMask_mem hf)
+    simp only [Bool.and_eq_true] at this
+    have e1 : maskNames p tag = x.1 := by simp [maskNames, hf]
+    have e2 : maskByName p tag = x.2 := by simp [maskByName, hf]
+    rw [e1, e2]
+    exact ⟨natPrefix_getD this.1, covers_spec this.2⟩
+
+theorem coversRegistry_parts {pT gT pN gN : Table} {pE gE : EnumIndex} {pM gM : MaskIndex}
+    {pET gET pMT gMT : Table} :
+    coversRegistry pT gT pN gN pE gE pM gM pET gET pMT gMT = true ↔
+    (covers pT gT = true ∧ covers pN gN = true ∧ coversEnums pE gE = true ∧
+     coversMasks pM gM = true ∧ covers pET gET = true ∧ covers pMT gMT = true) := by
+  simp only [coversRegistry, Bool.and_eq_true]
+  constructor
+  · rintro ⟨⟨⟨⟨⟨a, b⟩, c⟩, d⟩, e⟩, f⟩; exact ⟨a, b, c, d, e, f⟩
+  · rintro ⟨a, b, c, d, e, f⟩; exact ⟨⟨⟨⟨⟨a, b⟩, c⟩, d⟩, e⟩, f⟩
+
+/-- what the information flag `equalsRegistry` means when it is true. -/
+theorem equalsRegistry_sound {pT gT pN gN : Table} {pE gE : EnumIndex} {pM gM : MaskIndex}
+    {pET gET pMT gMT : Table} (h : equalsRegistry pT gT pN gN pE gE pM gM pET gET pMT gMT = true) :
+    (∀ x, x ∈ pT ↔ x ∈ gT) ∧ (∀ x, x ∈ pN ↔ x ∈ gN) ∧
+    (∀ tag, agrees (enumByValue pE tag) (enumByValue gE tag) = true ∧
+            agrees (enumByName pE tag) (enumByName gE tag) = true) ∧
+    (∀ tag, maskNames pM tag = maskNames gM tag ∧ agrees (maskByName pM tag) (maskByName gM tag) = true) ∧
+    (∀ x, x ∈ pET ↔ x ∈ gET) ∧ (∀ x, x ∈ pMT ↔ x ∈ gMT) := by
+  simp only [equalsRegistry, Bool.and_eq_true] at h
+  obtain ⟨⟨⟨⟨⟨a, b⟩, c⟩, d⟩, e⟩, f⟩ := h
+  exact ⟨agrees_sound a, agrees_sound b, fun tag => agreesEnums_sound c tag rfl,
+    agreesMasks_sound d, agrees_sound e, agrees_sound f⟩
+
+/-! ## Go type ↦ tag maps -/
+
+theorem hasKey_true {k : Nat} {t : Table} (h : hasKey k t = true) : ∃ v, lookup k t = some v := by
+  unfold hasKey at h
+  obtain ⟨q, hq, he⟩ := List.any_eq_true.mp h
+  have : q.1 = k := by simpa using he
+  obtain ⟨a, b⟩ := q
+  subst this
+  exact lookup_isSome_of_mem hq
+
+theorem hasVal_true {v : Nat} {t : Table} (h : hasVal v t = true) : ∃ k, (k, v) ∈ t := by
+  unfold hasVal at h
+  obtain ⟨q, hq, he⟩ := List.any_eq_true.mp h
+  have : q.2 = v := by simpa using he
+  obtain ⟨a, b⟩ := q
+  subst this
+  exact ⟨a, hq⟩
+
+/-- what `typesWF` establishes about a type table (`ttlv.enums` or `ttlv.bitmasks`). -/
+structure TypesOk (types typeTags tagNames : Table) (tabTags : List Nat) : Prop where
+  /-- a registered type has ONE tag, equal to its default tag (`getTagForType`), registered and non-zero -/
+  tag : ∀ ty t, lookup ty types = some t →
+    lookup ty typeTags = some t ∧ (∃ n, lookup t tagNames = some n) ∧ 0 < t
+  /-- two types never share a table -/
+  inj : ∀ ty ty' t, lookup ty types = some t → lookup ty' types = some t → ty = ty'
+  /-- every table belongs to a type -/
+  onto : ∀ t, t ∈ tabTags → ∃ ty, lookup ty types = some t
+  fn : Functional types
+
+theorem typesWF_sound {types typeTags tagNames : Table} {tabTags : List Nat}
+    (h : typesWF types typeTags tagNames tabTags = true) : TypesOk types typeTags tagNames tabTags := by
+  simp only [typesWF, Bool.and_eq_true] at h
+  obtain ⟨⟨⟨⟨hk, hv⟩, _⟩, hall⟩, hon⟩ := h
+  refine ⟨?_, ?_, ?_, keysNodup_functional hk⟩
+  · intro ty t hl
+    have := List.all_eq_true.mp hall _ (lookup_mem hl)
+    simp only [Bool.and_eq_true, decide_eq_true_eq] at this
+    obtain ⟨⟨h1, h2⟩, h3⟩ := this
+    refine ⟨?_, hasKey_true h2, h3⟩
+    cases hl2 : lookup ty typeTags with
+    | none => simp [optIs, hl2] at h1
+    | some z =>
+      simp only [optIs, hl2, beq_iff_eq] at h1
+      rw [h1]
+  · intro ty ty' t h1 h2
+    exact valsNodup_unique hv (lookup_mem h1) (lookup_mem h2)
+  · intro t ht
+    obtain ⟨ty, hm⟩ := hasVal_true (List.all_eq_true.mp hon t ht)
+    exact ⟨ty, lookup_of_mem hk hm⟩
+
+/-- the table tag used for a typed value is the type's own tag, whatever the element tag. -/
+theorem effTag_typeTag {types typeTags tagNames : Table} {tabTags : List Nat}
+    (ok : TypesOk types typeTags tagNames tabTags) {ty t : Nat} (h : lookup ty types = some t)
+    (elem : Nat) : effTag (typeTag typeTags ty) elem = t := by
+  obtain ⟨h1, _, h3⟩ := ok.tag ty t h
+  have : (t == 0) = false := by
+    cases t with
+    | zero => omega
+    | succ n => rfl
+  simp [effTag, typeTag, h1, this]
+
 end Kmip.Reg
